@@ -21,9 +21,9 @@ ACTIONS = ["CoordStep", "SweepEnd"]
 
 GEN = {
     "quick": dict(NS="{3, 4}", XV="{0, 1, 2, 3}", XOff=1, YV="{0, 1, 3}", PS="{1, 2}", TS="{2}",
-                  XThin1=1, XThin2=8, YThin1=20, YThin2=80, CThin=21, F32Mod=4),
+                  XThin1=1, XThin2=8, YThin1=20, YThin2=80, CThin=21, OThin=3, F32Mod=4),
     "thorough": dict(NS="{3, 4, 5}", XV="{0, 1, 2, 3}", XOff=1, YV="{0, 1, 3}", PS="{1, 2}", TS="{1, 2, 3}",
-                     XThin1=1, XThin2=6, YThin1=15, YThin2=150, CThin=22, F32Mod=4),
+                     XThin1=1, XThin2=6, YThin1=15, YThin2=150, CThin=40, OThin=4, F32Mod=4),
 }
 TRACE_CONST = dict(MaxSweeps=0, DXV="{}", DXOff=0, DYV="{}")
 
@@ -120,7 +120,7 @@ def run(ctx):
     cases = vlib.tlc_gen(ctx, "Gen_LinReg", {"constants": GEN[ctx.tier], "invariants": ["Emit"]}, workers=4)
     ctx.exhaustive = False
     if not ctx.quick:
-        cases += random_cases(ctx, 4000)
+        cases += random_cases(ctx, 2500)
     vlib.number(cases)
     ctx.cases = len(cases)
     ctx.nontrivial = len({key(c) for c in cases if nontrivial(c)})
